@@ -209,6 +209,7 @@ type pCase struct {
 	objects  []statsHandle
 	token    int64
 
+	draining    bool
 	nontrivial  bool
 	maxUpdates  int
 	abortReason string
@@ -246,6 +247,9 @@ func (c *pCase) settle() {
 		c.parked = append(c.parked, op)
 		call := c.calls[op.call]
 		if op.kind == "write" {
+			if !c.draining {
+				c.label("write-before-drain")
+			}
 			call.writes++
 			c.writes[op.digest]++
 			if !c.dirtied[op.digest] {
@@ -289,6 +293,9 @@ func (c *pCase) settle() {
 					c.objects = append(c.objects, out.handle)
 				} else {
 					c.label("handle-shared")
+					if c.writeInFlight(call.digest) {
+						c.label("handle-reused-during-write")
+					}
 				}
 				c.holdings = append(c.holdings, &holding{call: call.id, digest: call.digest, handle: out.handle, object: obj})
 				c.add("returned", fmt.Sprintf("call=%d", call.id), fmt.Sprintf("handle object#%d", obj))
@@ -431,43 +438,58 @@ func (c *pCase) run() {
 		}
 	}
 
-	pickDigest := func() string {
-		// Prefer digests that have a write in flight or queued data:
-		// that is where the interesting interleavings are.
-		if rapid.IntRange(0, 2).Draw(rt, "preferBusy") != 0 {
-			var busy []string
-			for _, d := range c.digests {
-				if c.writeInFlight(d) {
-					busy = append(busy, d)
-				}
+	busyDigests := func() []string {
+		var busy []string
+		for _, d := range c.digests {
+			if c.writeInFlight(d) {
+				busy = append(busy, d)
 			}
-			if len(busy) > 0 {
-				return busy[rapid.IntRange(0, len(busy)-1).Draw(rt, "busyDigest")]
-			}
+		}
+		return busy
+	}
+	// pickDigest prefers digests with a write in flight: that is where the
+	// interesting interleavings are. Two overlapping first reads of one
+	// digest only allow the weak oracle for it, so they are explored, but
+	// rarely.
+	pickDigest := func(busyOnly bool) (string, bool) {
+		if busy := busyDigests(); len(busy) > 0 && (busyOnly || rapid.IntRange(0, 2).Draw(rt, "preferBusy") != 0) {
+			return busy[rapid.IntRange(0, len(busy)-1).Draw(rt, "busyDigest")], true
+		} else if busyOnly {
+			return "", false
 		}
 		d := c.digests[rapid.IntRange(0, len(c.digests)-1).Draw(rt, "digest")]
-		// Two overlapping first reads of one digest only allow the weak
-		// oracle for it: explore them, but not all the time.
-		if c.firstReadPending(d) && rapid.IntRange(0, 7).Draw(rt, "allowOverlap") != 0 {
+		if c.firstReadPending(d) && rapid.IntRange(0, 15).Draw(rt, "allowOverlap") != 0 {
 			for _, other := range c.digests {
 				if !c.firstReadPending(other) {
-					return other
+					return other, true
 				}
 			}
+			return "", false
 		}
-		return d
+		return d, true
 	}
-	canGet := func() bool { return c.pendingCalls() < 4 && len(c.holdings) < 6 }
+	canGet := func() bool { return c.pendingCalls() < 4 && len(c.holdings) < 5 }
 	// Every rule falls back to another applicable one instead of being
 	// skipped: in the idle state only "get" applies, and rapid gives up on
 	// a case after too many skipped draws.
 	var fallback func()
-	doGet := func() {
+	doGet := func(busyOnly bool) {
 		if !canGet() {
 			fallback()
 			return
 		}
-		c.startGet(pickDigest())
+		d, ok := pickDigest(busyOnly)
+		if !ok {
+			// Every digest is being read for the first time (so
+			// something is parked), or none has a write in flight.
+			if len(c.parked) > 0 {
+				c.complete(rapid.IntRange(0, len(c.parked)-1).Draw(rt, "park"), true)
+			} else {
+				c.startGet(c.digests[rapid.IntRange(0, len(c.digests)-1).Draw(rt, "digest")])
+			}
+			return
+		}
+		c.startGet(d)
 	}
 	doComplete := func(kind string, ok bool) {
 		var idxs []int
@@ -482,6 +504,15 @@ func (c *pCase) run() {
 		}
 		c.complete(idxs[rapid.IntRange(0, len(idxs)-1).Draw(rt, "park")], ok)
 	}
+	holdingsOf := func(d string) int {
+		n := 0
+		for _, h := range c.holdings {
+			if h.digest == d {
+				n++
+			}
+		}
+		return n
+	}
 	doRelease := func(busyOnly, dirty bool) {
 		var idxs []int
 		for i, h := range c.holdings {
@@ -489,8 +520,23 @@ func (c *pCase) run() {
 				idxs = append(idxs, i)
 			}
 		}
+		// Prefer the last holding of a digest: only then the handle is
+		// queued for writing.
+		var sole []int
+		for _, i := range idxs {
+			if holdingsOf(c.holdings[i].digest) == 1 {
+				sole = append(sole, i)
+			}
+		}
+		if len(sole) > 0 && rapid.IntRange(0, 3).Draw(rt, "preferSoleHolding") != 0 {
+			idxs = sole
+		}
 		if len(idxs) == 0 {
-			fallback()
+			if busyOnly && canGet() {
+				doGet(true) // set the situation up instead
+			} else {
+				fallback()
+			}
 			return
 		}
 		c.release(idxs[rapid.IntRange(0, len(idxs)-1).Draw(rt, "holding")], dirty)
@@ -498,7 +544,7 @@ func (c *pCase) run() {
 	fallback = func() {
 		switch {
 		case canGet():
-			doGet()
+			doGet(false)
 		case len(c.parked) > 0:
 			doComplete("", true)
 		default:
@@ -507,7 +553,8 @@ func (c *pCase) run() {
 	}
 
 	rt.Repeat(map[string]func(*rapid.T){
-		"get":                     func(*rapid.T) { doGet() },
+		"get":                     func(*rapid.T) { doGet(false) },
+		"getDuringWrite":          func(*rapid.T) { doGet(true) },
 		"releaseDirty":            func(*rapid.T) { doRelease(false, true) },
 		"releaseDirtyDuringWrite": func(*rapid.T) { doRelease(true, true) },
 		"releaseClean": func(*rapid.T) {
@@ -519,7 +566,6 @@ func (c *pCase) run() {
 		},
 		"completeOK":      func(*rapid.T) { doComplete("", true) },
 		"completeReadOK":  func(*rapid.T) { doComplete("read", true) },
-		"completeWriteOK": func(*rapid.T) { doComplete("write", true) },
 		"completeError": func(*rapid.T) {
 			if rapid.IntRange(0, 2).Draw(rt, "reallyFail") != 0 {
 				fallback()
@@ -533,6 +579,7 @@ func (c *pCase) run() {
 	// finish, hand back every handle, then keep calling Get on an unrelated
 	// digest, which is what pumps the write-back queue.
 	c.add("drain", "", "")
+	c.draining = true
 	for len(c.parked) > 0 {
 		c.complete(0, true)
 	}
